@@ -152,13 +152,21 @@ func (r *Refs) RenameBranch(rootGoitPath, curBranchName, newBranchName string) e
 	r.Heads[curNum].Name = newBranchName
 	sort.Slice(r.Heads, func(i, j int) bool { return r.Heads[i].Name < r.Heads[j].Name })
 
-	// rename file
-	oldPath := filepath.Join(rootGoitPath, "refs", "heads", curBranchName)
-	newPath := filepath.Join(rootGoitPath, "refs", "heads", newBranchName)
-	if err := os.Rename(oldPath, newPath); err != nil {
-		return fmt.Errorf("fail to rename file: %w", err)
+	// write the branch under its new name. The file of the old name is kept until HEAD
+	// names the new branch (see RemoveRenamedBranch), so that HEAD never names a missing branch
+	if err := r.Heads[r.getBranchPos(newBranchName)].write(rootGoitPath); err != nil {
+		return fmt.Errorf("fail to write branch: %w", err)
 	}
 
+	return nil
+}
+
+// RemoveRenamedBranch deletes the file of the old name of a renamed branch, after HEAD has been updated
+func (r *Refs) RemoveRenamedBranch(rootGoitPath, oldBranchName string) error {
+	oldPath := filepath.Join(rootGoitPath, "refs", "heads", oldBranchName)
+	if err := os.Remove(oldPath); err != nil {
+		return fmt.Errorf("fail to delete %s: %w", oldPath, err)
+	}
 	return nil
 }
 
